@@ -51,9 +51,6 @@ inductive Rd where
   | buf (inner : Rd) (b : Buffer)
   deriving Repr
 
-/-- `fill_buf` up to the inner call: `if all_done { reset }` -/
-def Buffer.prep (b : Buffer) : Buffer := if b.allDone then b.reset else b
-
 /-- `fill_buf`, given the outcome `rr` of `reader.read(b.slice(len..))` (only used when `need_fill`).
 On an error the buffer is restored unchanged (`Buffer::with`). -/
 def bufFill (b1 : Buffer) (rr : Res Bytes × Rd) (inner : Rd) : Res Unit × Rd × Buffer :=
@@ -533,5 +530,126 @@ def copyLoop : Nat → Rd → Wr → Nat → Nat → Res Nat × Rd × Wr
 
 /-- `copy_with_size(reader, writer, size)` -/
 def copy (fuel : Nat) (r : Rd) (w : Wr) (size : Nat) : Res Nat × Rd × Wr := copyLoop fuel r w size 0
+
+/-! ## positional helpers over the in-memory `AsyncReadAt` / `AsyncWriteAt` implementations
+
+`u64` position arithmetic (`pos + read as u64`) is not modelled as overflowing: a position from which
+bytes were delivered lies below the source length, so the sum never exceeds it. -/
+
+/-- `loop_read_exact!` with `self.read_at(buf.slice(read..), pos + read)` on `[u8]` / `Vec<u8>` -/
+def readExactAtLoop : Nat → Bytes → VBuf → Nat → Nat → Nat → Res Unit × VBuf
+  | 0, _, b, _, _, _ => (.fuel, b)
+  | fuel + 1, src, b, pos, len, read =>
+    if read < len then
+      if b.data.length < read then (.panic, b)
+      else if (readAt src (pos + read) (b.cap - read)).length = 0 then (.err .unexpectedEof, b)
+      else
+        readExactAtLoop fuel src (b.place read (readAt src (pos + read) (b.cap - read))) pos len
+          (read + (readAt src (pos + read) (b.cap - read)).length)
+    else (.ok (), b)
+
+/-- `AsyncReadAtExt::read_exact_at` -/
+def readExactAt (src : Bytes) (b : VBuf) (pos : Nat) : Res Unit × VBuf :=
+  readExactAtLoop (b.cap + 1) src b pos b.cap 0
+
+/-- `loop_read_to_end!` with `self.read_at(buffer.slice(start + total..), pos + total)` -/
+def readToEndAtLoop : Nat → Bytes → VBuf → Nat → Nat → Nat → Res Nat × VBuf
+  | 0, _, b, _, _, _ => (.fuel, b)
+  | fuel + 1, src, b, pos, start, total =>
+    let b1 := if b.data.length = b.cap then b.reserve 32 else b
+    if b1.data.length < start + total then (.panic, b1)
+    else if (readAt src (pos + total) (b1.cap - (start + total))).length = 0 then (.ok total, b1)
+    else
+      readToEndAtLoop fuel src (b1.place (start + total) (readAt src (pos + total) (b1.cap - (start + total))))
+        pos start (total + (readAt src (pos + total) (b1.cap - (start + total))).length)
+
+/-- `AsyncReadAtExt::read_to_end_at` (repaired: appends) -/
+def readToEndAt (src : Bytes) (b : VBuf) (pos : Nat) : Res Nat × VBuf :=
+  readToEndAtLoop (src.length + 2) src b pos b.data.length 0
+
+/-- `loop_read_exact!` with `self.read_vectored_at(buf.slice_mut(read), pos + read)` -/
+def readVectoredExactAtLoop : Nat → Bytes → List MBuf → Nat → Nat → Nat → Res Unit × List MBuf
+  | 0, _, bufs, _, _, _ => (.fuel, bufs)
+  | fuel + 1, src, bufs, pos, len, read =>
+    if read < len then
+      match readVectoredAt src (pos + read) (VS.sliceMut bufs read) with
+      | (.ok n, vs) =>
+        if n = 0 then (.err .unexpectedEof, vs.bufs)
+        else readVectoredExactAtLoop fuel src vs.bufs pos len (read + n)
+      | (.err e, vs) => (.err e, vs.bufs)
+      | (.panic, vs) => (.panic, vs.bufs)
+      | (.ub, vs) => (.ub, vs.bufs)
+      | (.fuel, vs) => (.fuel, vs.bufs)
+    else (.ok (), bufs)
+
+/-- `AsyncReadAtExt::read_vectored_exact_at` -/
+def readVectoredExactAt (src : Bytes) (bufs : List MBuf) (pos : Nat) : Res Unit × List MBuf :=
+  readVectoredExactAtLoop (sumNat (viewCaps bufs 0) + 1) src bufs pos (sumNat (viewCaps bufs 0)) 0
+
+/-- an in-memory positional destination: `Vec<u8>` (grows) or `[u8]` (fixed) -/
+inductive AtDst where
+  | vec (v : Bytes)
+  | arr (a : Bytes)
+  deriving Repr, DecidableEq
+
+def AtDst.bytes : AtDst → Bytes
+  | .vec v => v
+  | .arr a => a
+
+def AtDst.writeAt : AtDst → Nat → Bytes → Res Nat × AtDst
+  | .vec v, pos, bs =>
+    match vecWriteAt v pos bs with
+    | .ok (n, v') => (.ok n, .vec v')
+    | .err e => (.err e, .vec v)
+    | .panic => (.panic, .vec v)
+    | .ub => (.ub, .vec v)
+    | .fuel => (.fuel, .vec v)
+  | .arr a, pos, bs => (.ok (sliceWriteAt a pos bs).1, .arr (sliceWriteAt a pos bs).2)
+
+def AtDst.writeVectoredAt : AtDst → Nat → List Bytes → Res Nat × AtDst
+  | .vec v, pos, bufs =>
+    match vecWriteVectoredAt v pos bufs with
+    | .ok (n, v') => (.ok n, .vec v')
+    | .err e => (.err e, .vec v)
+    | .panic => (.panic, .vec v)
+    | .ub => (.ub, .vec v)
+    | .fuel => (.fuel, .vec v)
+  | .arr a, pos, bufs => (.ok (sliceWriteVectoredAt a pos bufs).1, .arr (sliceWriteVectoredAt a pos bufs).2)
+
+/-- `loop_write_all!` with `self.write_at(buf.slice(needle..), pos + needle)` -/
+def writeAllAtLoop : Nat → AtDst → Nat → Bytes → Nat → Res Unit × AtDst
+  | 0, d, _, _, _ => (.fuel, d)
+  | fuel + 1, d, pos, data, needle =>
+    if needle < data.length then
+      match d.writeAt (pos + needle) (data.drop needle) with
+      | (.ok n, d') =>
+        if n = 0 then (.err .writeZero, d') else writeAllAtLoop fuel d' pos data (needle + n)
+      | (.err e, d') => (.err e, d')
+      | (.panic, d') => (.panic, d')
+      | (.ub, d') => (.ub, d')
+      | (.fuel, d') => (.fuel, d')
+    else (.ok (), d)
+
+/-- `AsyncWriteAtExt::write_all_at` -/
+def writeAllAt (d : AtDst) (pos : Nat) (data : Bytes) : Res Unit × AtDst :=
+  writeAllAtLoop (data.length + 1) d pos data 0
+
+/-- `loop_write_all!` with `self.write_vectored_at(buf.slice(needle), pos + needle)` -/
+def writeVectoredAllAtLoop : Nat → AtDst → Nat → List Bytes → Nat → Nat → Res Unit × AtDst
+  | 0, d, _, _, _, _ => (.fuel, d)
+  | fuel + 1, d, pos, bufs, len, needle =>
+    if needle < len then
+      match d.writeVectoredAt (pos + needle) (vslice bufs needle) with
+      | (.ok n, d') =>
+        if n = 0 then (.err .writeZero, d') else writeVectoredAllAtLoop fuel d' pos bufs len (needle + n)
+      | (.err e, d') => (.err e, d')
+      | (.panic, d') => (.panic, d')
+      | (.ub, d') => (.ub, d')
+      | (.fuel, d') => (.fuel, d')
+    else (.ok (), d)
+
+/-- `AsyncWriteAtExt::write_vectored_all_at` -/
+def writeVectoredAllAt (d : AtDst) (pos : Nat) (bufs : List Bytes) : Res Unit × AtDst :=
+  writeVectoredAllAtLoop (sumNat (bufs.map List.length) + 1) d pos bufs (sumNat (bufs.map List.length)) 0
 
 end Compio.Io
